@@ -127,7 +127,8 @@ def run(ctx):
                 if len(p) != 1:
                     return False
                 (m, c), = p.items()
-                if c <= 0 or any(not (a.startswith("sqrt(") or a in pos_atoms) for a, e in m):
+                from xfabsa.poly import mono_items
+                if c <= 0 or any(not (a.startswith("sqrt(") or a in pos_atoms) for a, e in mono_items(m)):
                     return False
             return True
         ctx.check(nonneg_root(stl), "C01:sign:%s.sintl" % short,
